@@ -55,6 +55,12 @@ STMTS = {
     "closure-two-levels": ("capturing-closures", ["x = c", "def mid() -> int:", "    def inner() -> int:", "        return x", "    return inner()", "mid()"]),
     "closure-never-called": ("capturing-closures", ["x = c", "def inner() -> int:", "    return x"]),
     "closure-recursive-capturing": ("capturing-closures", ["x = c", "def inner(k: int) -> int:", "    if k == 0:", "        return x", "    return inner(k - 1)", "inner(2)"]),
+    # ... of every KIND of captured value
+    "closure-captures-function-value": ("capturing-closures", ["g1 = f", "def inner(y: int) -> int:", "    return g1(y)", "inner(1)"]),
+    "closure-captures-sibling-local-function": ("capturing-closures", ["def f1(y: int) -> int:", "    return y + 1", "def inner(y: int) -> int:", "    return f1(y)", "inner(1)"]),
+    "closure-captures-tuple": ("capturing-closures", ["t = (c, True)", "def inner() -> int:", "    return t[0]", "inner()"]),
+    "closure-captures-float-and-bool": ("capturing-closures", ["u = 1.5", "w = c > 0", "def inner() -> float:", "    return u if w else 0.5", "inner()"]),
+    "closure-captures-function-and-int": ("capturing-closures", ["g1 = f", "x = c", "def inner() -> int:", "    return g1(x)", "inner()"]),
     # modifier blocks
     "with-dagger": ("modifiers", ["with dagger:", "    pass"]),
     "with-power": ("modifiers", ["with power(2):", "    pass"]),
